@@ -991,13 +991,38 @@ GENERATORS = [("chain", gen_chain, 1), ("bytes", gen_bytes, 6), ("soup", gen_sou
 
 
 class _Huge:
-    """Narrow predicate of the open finding: a constant field size `[+N]` with N >= 10**6."""
-    _rx = re.compile(r"\[\+\s*\(*\s*([0-9][0-9_]*)")
+    """Narrow predicate of the open finding `timeout:constant-field-size>=10^6`: some field
+    size expression `[+ … ]` contains a numeric literal >= 10**6, or a `Type:N` size specifier has
+    N >= 10**6 (textual over-approximation
+    of "the constant size of a field is astronomically large")."""
+    _num = re.compile(r"0[xX][0-9a-fA-F_]+|0[bB][01_]+|[0-9][0-9_]*")
+    _tsize = re.compile(r"[A-Za-z]:([0-9][0-9_]*)")
 
     def search(self, text):
-        for m in self._rx.finditer(text):
-            if int(m.group(1).replace("_", "")) >= 10 ** 6:
-                return m
+        for line in text.splitlines():
+            i = line.find("[+")
+            while i >= 0:
+                depth, j = 0, i
+                while j < len(line):
+                    if line[j] == "[":
+                        depth += 1
+                    elif line[j] == "]":
+                        depth -= 1
+                        if depth == 0:
+                            break
+                    j += 1
+                for m in self._num.finditer(line[i + 2:j]):
+                    t = m.group(0).replace("_", "")
+                    try:
+                        v = int(t, 0) if t[:2].lower() in ("0x", "0b") else int(t)
+                    except ValueError:
+                        continue
+                    if v >= 10 ** 6:
+                        return m
+                i = line.find("[+", j)
+            for m in self._tsize.finditer(line):     # `Type:N` size specifier
+                if int(m.group(1).replace("_", "")) >= 10 ** 6:
+                    return m
         return None
 
 
